@@ -253,6 +253,139 @@ def main() -> int:
             ck.sample({"request": reqs[5], "model": model[5]})
             ck.sample({"request": reqs[len(reqs) // 2], "model": model[len(reqs) // 2]})
 
+            # ---- histories: the root and the working directory change between requests of one application object ----
+            # (Web/History.v: c17_history_contained; the real roots here are genuinely different directories)
+            import re
+            tok_re = re.compile(r"\b(in_[abc]|%s_(?!src)\w+)\b" % MARK)
+            tok_file = {"in_a": base / "root" / "a.sql", "in_b": base / "root" / "sub" / "b.sql",
+                        "in_c": base / "root" / "sub" / "deep" / "c.sql", f"{MARK}_s": base / "root_sibling" / f"s_{MARK}.sql",
+                        f"{MARK}_sa": base / "root_sibling" / "a.sql", f"{MARK}_o": base / "outside" / f"o_{MARK}.sql",
+                        f"{MARK}_oa": base / "outside" / "a.sql", f"{MARK}_ob": base / "outside" / "sub" / "b.sql",
+                        f"{MARK}_top": base / f"top_{MARK}.sql", f"{MARK}_basea": base / "a.sql"}
+            hroots = [str(base / "root"), str(base / "outside"), str(base / "root" / "sub"), str(base / "root_sibling"),
+                      "root", "outside", "root/sub/../sub", "./root_sibling/", str(base)]
+            hcwds = [str(base), str(base / "root"), str(base / "outside"), "..", "sub", "root"]
+            hfiles = [str(v) for v in tok_file.values()] + ["root/a.sql", "a.sql", "sub/b.sql", "outside/a.sql", "../a.sql",
+                      "root/../outside/a.sql", "root_sibling/a.sql", f"root_sibling/s_{MARK}.sql", "root/sub/deep/c.sql", "./a.sql",
+                      "deep/c.sql", "../root/a.sql", "../outside/sub/b.sql"]
+            hdirs = [str(base / "root"), str(base / "outside"), str(base / "root" / "sub"), str(base / "root_sibling"), str(base),
+                     "root", "outside", ".", "..", "sub", "root/sub", "../outside", "deep", "root/..", "outside/sub"]
+            n_hist = 150 if quick else 1500
+            hists = []
+            for _ in range(n_hist):
+                ops = []
+                for _ in range(r.randint(4, 10)):
+                    k = r.random()
+                    if k < 0.22:
+                        ops.append(("root", r.choice(hroots)))
+                    elif k < 0.32:
+                        ops.append(("cwd", r.choice(hcwds)))
+                    else:
+                        rt = r.choice(["/script", "/script", "/directory", "/directory", "/lineage"])
+                        if rt == "/directory" and r.random() < 0.6:
+                            ops.append(("post", rt, None, r.choice(hdirs)))
+                        else:
+                            ops.append(("post", rt, r.choice(hfiles), r.choice(hdirs) if r.random() < 0.15 else None))
+                hists.append(ops)
+
+            def g_op(o):
+                if o[0] == "root":
+                    return f"WSetRoot {coq_string(o[1])}"
+                if o[0] == "cwd":
+                    return f"WChdir {coq_string(o[1])}"
+                return f"WPost {{| rt := {route_g[o[1]]}; pf := {g_opt(o[2])}; pd := {g_opt(o[3])} |}}"
+
+            hexprs = [f"show_history {coq_string(str(base))} {coq_string(hroots[0])} [{'; '.join(g_op(o) for o in ops)}]" for ops in hists]
+            hmodel = coq_eval("From SV Require Import Web.PathModel Web.History.\nOpen Scope string_scope.", hexprs, shard=400)
+            dist["history_requests"] = 0
+            for ops, hm in zip(hists, hmodel):
+                os.chdir(base)
+                app.app.root_path = Path(hroots[0])
+                answers = hm.split(";") if hm else []
+                trace, ai = [], 0
+                for o in ops:
+                    if o[0] == "root":
+                        app.app.root_path = Path(o[1])
+                        trace.append(o)
+                        continue
+                    if o[0] == "cwd":
+                        try:
+                            os.chdir(o[1])
+                        except OSError:
+                            os.chdir(base)       # keep model and process in step: replay the model from here is not possible
+                            trace.append(("cwd-failed", o[1]))
+                            break
+                        trace.append(o)
+                        continue
+                    _, rt, f, dd = o
+                    m = answers[ai] if ai < len(answers) else "?"
+                    ai += 1
+                    body = {}
+                    if f is not None:
+                        body["f"] = f
+                    if dd is not None:
+                        body["d"] = dd
+                    cur_root = os.path.realpath(str(app.app.root_path))
+                    cwd_now = os.getcwd()
+                    status, raw = app.request("POST", rt, body)
+                    ck.count()
+                    dist["history_requests"] += 1
+                    text = raw.decode("utf-8", "replace")
+                    trace.append(o)
+                    case = {"suite": "history", "initial_root": hroots[0], "initial_cwd": str(base), "history_so_far": list(trace),
+                            "root_in_force": cur_root, "cwd_in_force": cwd_now, "impl_status": status, "impl_body": text[:400], "model": m}
+
+                    def inside_cur(pth):
+                        rp = os.path.realpath(pth)
+                        return rp == cur_root or rp.startswith(cur_root + os.sep)
+                    # S on the implementation: nothing from outside the root IN FORCE may be disclosed
+                    if status == 200:
+                        bad = None
+                        if rt in ("/script", "/lineage"):
+                            for t in tok_re.findall(text):
+                                if t in tok_file and not inside_cur(tok_file[t]):
+                                    bad = f"content of {tok_file[t]} disclosed while the root is {cur_root}"
+                        elif rt == "/directory":
+                            try:
+                                lid = json.loads(text).get("id")
+                            except ValueError:
+                                lid = None
+                            if lid is not None and not inside_cur(os.path.join(cwd_now, lid)):
+                                bad = f"listing of {lid} disclosed while the root is {cur_root}"
+                        if bad:
+                            case["spec"] = bad
+                            spec_failures.append(case)
+                            break
+                    # I vs M
+                    if m in ("403", "404"):
+                        if status != int(m):
+                            disagreements.append(case)
+                            break
+                        continue
+                    if status == 403:
+                        disagreements.append(case)
+                        break
+                    kind, mp = m[5:6], m[6:]
+                    if kind in ("F", "L") and m.startswith("PASS:") and m not in ("PASS:DEFAULT", "PASS:NONE"):
+                        ck.nontriv(("hist", rt, f, dd, cur_root, cwd_now))
+                        if not inside_cur(mp):
+                            case["spec"] = "model resolved path outside the root in force"
+                            spec_failures.append(case)
+                            break
+                        if status == 200:
+                            data = json.loads(text)
+                            if kind == "F" and rt == "/script":
+                                ok = os.path.isfile(mp) and data.get("content") == Path(mp).read_text()
+                            elif kind == "F":
+                                ok = os.path.isfile(mp) and "verbose" in data
+                            else:
+                                ok = os.path.isdir(mp) and sorted(c["name"] for c in data["children"]) == sorted(os.listdir(mp))
+                            if not ok:
+                                disagreements.append(case)
+                                break
+            os.chdir(base)
+            app.app.root_path = Path(roots[0])
+
             # ---- GET ----
             gsegs = ["..", ".", "js", "app.js", "index.html", "manifest.json", "", "static_sib", "secret.txt", "...", "a..b"]
             pinfos = ["/"]
